@@ -129,12 +129,69 @@ def one_case(ctx, k):
         shutil.rmtree(d, ignore_errors=True)
 
 
+def action_case(ctx, k):
+    """Demultiplexing while the reads are left as they are (--action none/mask/lowercase, as recommended for keeping barcodes),
+    several rounds, barcodes in tandem: which adapter matched last does not depend on the action, so the file of each read is
+    read off a run of the same adapters with the default action that tags the read with {adapter_name}."""
+    from .. import gen_cli as G
+
+    rng = ctx.rng("c15act", k)
+    n_ad = rng.randint(2, 4)
+    anchored = rng.random() < 0.6
+    ads = []
+    for i in range(n_ad):
+        s_ = G.rnd(rng, rng.randint(5, 8))
+        ads.append((f"b{i}", s_))
+    times = rng.choice([2, 3, 3])
+    action = rng.choice(["none", "none", "mask", "lowercase"])
+    adargs = [x for nm, s_ in ads for x in ("-g", f"{nm}={'^' if anchored else ''}{s_}")] + ["-e", "0", "-n", str(times), "-O", "4"]
+    recs = []
+    for i in range(rng.randint(20, 40)):
+        parts = [rng.choice(ads)[1] for _ in range(rng.choice([0, 1, 2, 3, 3, 4]))]
+        s_ = "".join(parts) + G.rnd(rng, rng.randint(5, 20))
+        recs.append((f"r{i}", s_, "I" * len(s_)))
+    d = os.path.join(ctx.scratch, f"act{k}")
+    os.makedirs(d, exist_ok=True)
+    try:
+        inputs = climon.write_inputs(d, recs)
+        base = climon.run(d, adargs + ["--rename", "{id} {adapter_name}", "-o", "tag.fq"] + inputs, tag="tag", trace=False)
+        cores = rng.choice([1, 1, 2])
+        argv = adargs + ["--action", action] + (["-j", "2", "--buffer-size", "1500"] if cores == 2 else []) + ["-o", "act.{name}.fq"] + inputs
+        run = climon.run(d, argv, tag="act", trace=False)
+        case = climon.case_record(argv, d, inputs)
+        case.update(action_k=k)
+        ctx.count("action_demultiplexing_runs")
+        if base.rc != 0 or run.rc != 0:
+            ctx.case(("act-fail", k))
+            ctx.violation("run-crashed" if "Traceback" in (run.err + base.err) else "run-failed", f"exit {base.rc}/{run.rc}: {(run.err or base.err).strip().splitlines()[-1][:200]}; argv={argv}", case)
+            return
+        tag = {fastx.rid(r[0]): r[0].split(" ", 1)[1] for r in base.records("tag.fq")[1]}
+        where = {}
+        for nm in [a[0] for a in ads] + ["unknown"]:
+            fo = run.records(f"act.{nm}.fq")
+            if fo is None or fo[0] == "error":
+                ctx.violation("file-not-created", f"no parseable file act.{nm}.fq; argv={argv}", case)
+                return
+            for r in fo[1]:
+                where.setdefault(fastx.rid(r[0]), []).append(nm)
+        for name, s_, q in recs:
+            want = tag[name] if tag[name] != "no_adapter" else "unknown"
+            ctx.case(("act", action, times, str(ads), s_) if want != "unknown" else None)
+            if where.get(name) != [want]:
+                ctx.violation("routed-wrongly", f"read {name} ({s_!r}): last match with the default action is {tag[name]}, with --action={action} -n {times} it is in "
+                              f"{where.get(name)}; adapters {ads}; argv={argv}", case, klass="action" + action)
+    finally:
+        shutil.rmtree(d, ignore_errors=True)
+
+
 def run_shard(ctx):
     for k in range(ctx.scale(80, 2500)):
         if ctx.out_of_time():
             ctx.count("stopped_on_time_budget")
             break
         one_case(ctx, ctx.shard * 100000 + k)
+    for k in range(ctx.scale(8, 150)):
+        action_case(ctx, ctx.shard * 100000 + k)
 
 
 def verdict_hook(merged, tier):
@@ -145,5 +202,9 @@ def verdict_hook(merged, tier):
 
 
 def replay(ctx, case):
+    if "action_k" in case:
+        ctx.shard = case["action_k"] // 100000
+        action_case(ctx, case["action_k"])
+        return
     ctx.shard = case["k"] // 100000
     one_case(ctx, case["k"])
